@@ -51,6 +51,13 @@ impl TcpSnap {
     }
 }
 
+/// rarely used set-up options
+#[derive(Default)]
+pub struct Extra {
+    pub contexts: Vec<[u8; 8]>,
+    pub rx_checksum_off: bool,
+}
+
 pub struct World {
     pub med: Med,
     pub ver: Ver,
@@ -90,24 +97,40 @@ impl World {
     pub fn new(med: Med, ver: Ver, layout: Layout, sock: Sock, joined: bool, primed: bool, strict: bool) -> World {
         let mut table = address_table(ver, layout);
         table.truncate(smoltcp::config::IFACE_MAX_ADDR_COUNT.max(1));
-        Self::build(med, ver, table, true, false, sock, joined, primed, strict)
+        Self::build(med, ver, table, true, false, sock, joined, primed, strict, &Extra::default())
+    }
+
+    /// IEEE 802.15.4 interface with 6LoWPAN address contexts configured
+    /// (`sixlowpan_address_context_mut()`), own addresses fe80::1/64 and `global`/64, default route
+    /// via the on-link gateway; optionally without receive verification of the UDP / TCP / ICMPv6
+    /// checksums in the device capabilities.
+    pub fn new_lowpan_ctx(global: &Addr, contexts: &[[u8; 8]], rx_checksum_off: bool, sock: Sock, strict: bool) -> World {
+        let a = addrs(Ver::V6);
+        let extra = Extra { contexts: contexts.to_vec(), rx_checksum_off };
+        Self::build(Med::Lowpan, Ver::V6, vec![(a.my, 64), (global.clone(), 64)], true, false, sock, false, true, strict, &extra)
     }
 
     /// Interface for the timed SLAAC part: stateless autoconfiguration on, only the link-local
     /// address configured by hand, no static default route (routes come from advertisements).
     pub fn new_slaac(med: Med, sock: Sock, strict: bool) -> World {
         let a = addrs(Ver::V6);
-        Self::build(med, Ver::V6, vec![(a.my, 64)], false, true, sock, false, true, strict)
+        Self::build(med, Ver::V6, vec![(a.my, 64)], false, true, sock, false, true, strict, &Extra::default())
     }
 
     #[allow(clippy::too_many_arguments)]
-    fn build(med: Med, ver: Ver, table: Vec<(Addr, u8)>, default_route: bool, slaac: bool, sock: Sock, joined: bool, primed: bool, strict: bool) -> World {
+    fn build(med: Med, ver: Ver, table: Vec<(Addr, u8)>, default_route: bool, slaac: bool, sock: Sock, joined: bool, primed: bool, strict: bool, extra: &Extra) -> World {
         let mtu = match med {
             Med::Eth => 1514,
             Med::Ip => 1500,
             Med::Lowpan => 127,
         };
         let mut dev = SimDevice::new(medium_of(med), mtu);
+        if extra.rx_checksum_off {
+            use smoltcp::phy::Checksum;
+            dev.checksum.udp = Checksum::Tx;
+            dev.checksum.tcp = Checksum::Tx;
+            dev.checksum.icmpv6 = Checksum::Tx;
+        }
         let hw = match med {
             Med::Eth => HardwareAddress::Ethernet(EthernetAddress(MY_MAC)),
             Med::Ip => HardwareAddress::Ip,
@@ -128,6 +151,11 @@ impl World {
             }
         });
         let mut errors = vec![];
+        for c in &extra.contexts {
+            if iface.sixlowpan_address_context_mut().push(smoltcp::wire::SixlowpanAddressContext(*c)).is_err() {
+                errors.push("cannot add 6LoWPAN address context".into());
+            }
+        }
         match to_ip(&a.gw) {
             _ if !default_route => {}
             IpAddress::Ipv4(g) => {
